@@ -101,11 +101,8 @@ def parseObs (s : String) : Option Supv.Spec.C15.Obs :=
 
 def showErr : Err → String
   | .parse => "evaluate:ApplicationStatusParseError:handled"     -- never escapes today
-  | .calleeAttr => "evaluate:AttributeError:call-func-not-name"
-  | .noArg => "evaluate:IndexError:call-no-positional-arg"
   | .regex c => s!"evaluate:{excName c}:invalid-regex"
   | .recursion => "evaluate:RecursionError:deep-nesting"
-  | .stmtAttr => "status_tree:AttributeError:stmt-without-value"
   | .parser c => s!"setter:{excName c}:deep-nesting"
 
 def showResult : Except Err Status → String
